@@ -11,25 +11,6 @@ namespace H3.Huffman
 open H3.Bits H3.Spec.Huffman
 open H3.Gen.HuffDec (Level Entry root)
 
-mutual
-theorem walkL_short_suffix : ∀ (l : Level) (t q : List Bool), walkL l t = .short q → ∃ c, t = c ++ q
-  | .mk k tbl, t, q, h => by
-    rw [walkL_mk] at h
-    by_cases hc : k = 0 ∨ k > 8 ∨ t.length < k
-    · rw [if_pos hc] at h; cases h; exact ⟨[], rfl⟩
-    · rw [if_neg hc] at h
-      obtain ⟨c, hc'⟩ := walkT_short_suffix tbl _ _ q h
-      exact ⟨t.take k ++ c, by rw [List.append_assoc, ← hc', List.take_append_drop]⟩
-theorem walkT_short_suffix : ∀ (tbl : List Entry) (i : Nat) (t q : List Bool),
-    walkT tbl i t = .short q → ∃ c, t = c ++ q
-  | [], _, _, _, h => by rw [walkT] at h; cases h
-  | e :: _, 0, t, q, h => by rw [walkT] at h; exact walkE_short_suffix e t q h
-  | _ :: es, i+1, t, q, h => by rw [walkT] at h; exact walkT_short_suffix es i t q h
-theorem walkE_short_suffix : ∀ (e : Entry) (t q : List Bool), walkE e t = .short q → ∃ c, t = c ++ q
-  | .sym s, t, q, h => by rw [walkE] at h; cases h
-  | .sub l, t, q, h => by rw [walkE] at h; exact walkL_short_suffix l t q h
-end
-
 /-- `decode_next` answers `Ok(None)` exactly when the walk from the cursor runs out of bits at a level whose
     remaining bits `check_eof` accepts -/
 theorem step_done_iff (inp : List Nat) (hinp : WF inp) (w : BitWindow) (hpos : w.endPos ≤ 8 * inp.length) :
@@ -45,7 +26,7 @@ theorem step_done_iff (inp : List Nat) (hinp : WF inp) (w : BitWindow) (hpos : w
     · rintro ⟨q, h, _⟩; cases h
   | short q =>
     rw [hw] at hb
-    obtain ⟨h1, h2⟩ := hb
+    obtain ⟨h1, h2, _⟩ := hb
     constructor
     · intro h
       refine ⟨q, rfl, ?_⟩
@@ -98,7 +79,8 @@ theorem decodeAll_sound_lax (inp : List Nat) (hinp : WF inp) : ∀ (fuel : Nat) 
       obtain ⟨rfl, rfl⟩ := h
       have hd : (decodeNext root w inp).2 = .done := by rw [hres]
       obtain ⟨q, hwq, hq⟩ := (step_done_iff inp hinp w hpos).mp hd
-      exact ⟨by simp, (bitsOf inp).drop w.endPos, q, by simp [enc], by rw [padOK_eq], hwq, hq⟩
+      exact ⟨by simp, (bitsOf inp).drop w.endPos, q, by simp [enc],
+        by rw [laxAt_eq inp hinp w w' hpos hres, padOK_eq], hwq, hq⟩
     | err e => simp at h
 
 theorem decodeAll_complete_lax (inp : List Nat) (hinp : WF inp) : ∀ (s : List Nat) (fuel : Nat)
@@ -118,7 +100,7 @@ theorem decodeAll_complete_lax (inp : List Nat) (hinp : WF inp) : ∀ (s : List 
     rw [hres] at hdone
     simp only at hdone
     subst hdone
-    simp only [padOK_eq, hd]
+    simp only [laxAt_eq inp hinp w w' hpos hres, padOK_eq, hd]
   | cons x s ih =>
     intro fuel w tail q hpos hs hf hd hwq hq
     obtain ⟨f, rfl⟩ : ∃ f, fuel = f + 1 := ⟨fuel - 1, by simp at hf; omega⟩
